@@ -1,7 +1,87 @@
-//! CPC compressed images — placeholder until the independent FM85 codec is integrated.
-use super::Fields;
+//! Specification codec for the Apache DataSketches CPC ("FM85") *compressed* binary image.
+//!
+//! This is an independent re-implementation of the image format written by datasketches-java
+//! (`CpcSketch.toByteArray`), datasketches-cpp (`cpc_sketch::serialize`) and datasketches-rust.
+//! It deliberately does not call into the library under test: it works on the mathematical
+//! object the image denotes, namely the `k x 64` bit matrix of collected coupons
+//! (`k = 2^lg_k` rows, one `u64` per row, bit `c` of row `r` set iff coupon `(r, c)` was seen).
+//!
+//! # The format
+//!
+//! All multi-byte quantities are little-endian.  `C` is the number of coupons (= number of set
+//! bits of the matrix), `K = 2^lg_k`.
+//!
+//! ```text
+//! byte 0  preamble_ints   number of 4-byte ints before the compressed streams
+//! byte 1  serial_version  1
+//! byte 2  family_id       16 (CPC)
+//! byte 3  lg_k            4..=26
+//! byte 4  first_interesting_column   0..=63 (every column below it is all ones)
+//! byte 5  flags           bit0 reserved(big-endian)=0, bit1 COMPRESSED=1, bit2 HAS_HIP,
+//!                         bit3 HAS_TABLE (surprising values), bit4 HAS_WINDOW, bits5-7 = 0
+//! byte 6-7 seed_hash
+//!
+//!   table window hip | preamble_ints | fields after byte 8 (u32 unless noted)
+//!   -----------------+---------------+--------------------------------------------------------
+//!     0     0     *  |   2           | (empty sketch, C = 0)
+//!     1     0     0  |   4           | C, table_words
+//!     1     0     1  |   8           | C, table_words, kxp(f64), hip_accum(f64)
+//!     0     1     0  |   4           | C, window_words
+//!     0     1     1  |   8           | C, window_words, kxp(f64), hip_accum(f64)
+//!     1     1     0  |   6           | C, num_pairs, table_words, window_words
+//!     1     1     1  |  10           | C, num_pairs, kxp(f64), hip_accum(f64), table_words, window_words
+//!
+//! then window_words u32 of window stream, then table_words u32 of table (pair) stream.
+//! ```
+//!
+//! Flavor (from `lg_k`, `C`): Empty `C = 0`; Sparse `32C < 3K`; Hybrid `2C < K`;
+//! Pinned `8C < 27K`; Sliding otherwise.  Sparse and Hybrid images carry only the table
+//! (every set bit is a pair, `num_pairs = C`); Pinned and Sliding images carry the window and,
+//! if there is at least one pair, the table.
+//!
+//! Window offset `= max(0, (8C - 19K) >> (lg_k + 3))` (0 for every flavor except Sliding).
+//! The *window* is the byte `(row >> offset) & 0xff` of every row.  *Pairs* ("surprising
+//! values") are `(row, col)` positions outside the window: set bits in columns `>= offset + 8`
+//! and, in the Sliding flavor, UNSET bits in columns `< offset` (the "early zone" is expected to
+//! be all ones, so the zeros are the surprises).
+//!
+//! Both streams are LSB-first bit streams: bit `n` of a stream is bit `n mod 32` of its
+//! little-endian u32 word `n div 32` (equivalently bit `n mod 8` of byte `n div 8`).  Code
+//! words are emitted least significant bit first.
+//!
+//! * Window stream: the `K` window bytes, row 0 first, each coded with the length-limited
+//!   (max 12 bits) Huffman code number `pseudo_phase(lg_k, C)` of the 22 tables, followed by
+//!   11 zero padding bits, rounded up to whole words.
+//! * Pair stream: the pairs are first mapped to a canonical column: Sparse/Hybrid: `col`;
+//!   Pinned: `col - 8`; Sliding: `perm[phase][(col + 56 - offset) mod 64]` (a value in 0..56);
+//!   then sorted by `(row, mapped col)`.  Each pair is coded as
+//!   `x_delta` (column minus predicted column; predicted column is 0 at the start of a row and
+//!   previous column + 1 otherwise) with the 65-symbol length-limited unary code, then
+//!   `y_delta` (row minus previous row) as a Golomb code: `y_delta >> B` in unary (that many
+//!   zeros and a one) and the low `B` bits verbatim, where
+//!   `B = floor(log2(K / num_pairs))` (0 if `num_pairs > K`).  The stream ends with
+//!   `max(0, 10 - B)` zero padding bits, rounded up to whole words.
+//!
+//! # Strictness
+//!
+//! `decode` accepts exactly the images a conforming writer can produce for *some* bit matrix
+//! and HIP state; anything else is an `Err`.  Every error string starts with a category tag:
+//! `preamble:` (fixed header / flags / preamble-int count), `length:` (image size versus the
+//! declared stream sizes), `flavor:` (flag combination illegal for the flavor implied by C),
+//! `stream:` (bit stream cannot be decoded, is not exactly consumed, or has non-zero padding),
+//! `semantic:` (streams decode but contradict the header: coupon count, first interesting
+//! column), `limit:` (valid format but outside what this implementation materialises).
+//! The double-valued HIP fields are returned verbatim and are not range-checked.
 
-pub const AVAILABLE: bool = false;
+use super::cpc_tables::*;
+
+/// the codec is integrated (a placeholder module with AVAILABLE = false existed while it was being written)
+pub const AVAILABLE: bool = true;
+
+/// (offset, len, name) of every preamble field, for a structure-aware mutator.
+///
+/// The two compressed streams are appended as `window_stream` and `table_stream` when present.
+pub type Fields = Vec<(usize, usize, &'static str)>;
 
 #[derive(Clone, Debug, PartialEq)]
 pub struct CpcImage {
@@ -10,20 +90,934 @@ pub struct CpcImage {
     pub first_interesting_column: u8,
     pub num_coupons: u32,
     pub has_hip: bool,
-    pub kxp: f64,
-    pub hip_accum: f64,
+    pub kxp: f64,          // valid if has_hip
+    pub hip_accum: f64,    // valid if has_hip
     pub flags: u8,
     pub preamble_ints: u8,
-    pub window_offset: u8,
-    pub matrix: Vec<u64>,
+    pub window_offset: u8, // derived from (lg_k, num_coupons)
+    pub matrix: Vec<u64>,  // the k x 64 bit matrix the image encodes (row r, bit c = column c)
 }
 
-pub fn decode(_img: &[u8]) -> Result<(CpcImage, Fields), String> {
-    Err("CPC spec codec not integrated".into())
+pub const SERIAL_VERSION: u8 = 1;
+pub const FAMILY_ID: u8 = 16;
+pub const MIN_LG_K: u8 = 4;
+pub const MAX_LG_K: u8 = 26;
+pub const FLAG_COMPRESSED: u8 = 1 << 1;
+pub const FLAG_HAS_HIP: u8 = 1 << 2;
+pub const FLAG_HAS_TABLE: u8 = 1 << 3;
+pub const FLAG_HAS_WINDOW: u8 = 1 << 4;
+/// Bit 0 (big-endian, never written) and bits 5..7 (unused).
+pub const FLAG_RESERVED_MASK: u8 = 0b1110_0001;
+/// Seed hash of the default update seed 9001.
+pub const DEFAULT_SEED_HASH: u16 = 0x93cc;
+
+#[derive(Clone, Copy, Debug, PartialEq, Eq)]
+pub enum Flavor {
+    Empty,
+    Sparse,
+    Hybrid,
+    Pinned,
+    Sliding,
 }
-pub fn encode(_im: &CpcImage) -> Vec<u8> {
-    vec![]
+
+// ------------------------------------------------------------------------------------------
+// Derived quantities (all in u64 so that nothing can overflow for lg_k <= 26, C <= 64 K)
+// ------------------------------------------------------------------------------------------
+
+pub fn flavor_of(lg_k: u8, num_coupons: u32) -> Flavor {
+    let k = 1u64 << lg_k;
+    let c = num_coupons as u64;
+    if c == 0 {
+        Flavor::Empty
+    } else if 32 * c < 3 * k {
+        Flavor::Sparse
+    } else if 2 * c < k {
+        Flavor::Hybrid
+    } else if 8 * c < 27 * k {
+        Flavor::Pinned
+    } else {
+        Flavor::Sliding
+    }
 }
+
+/// max(0, (8C - 19K) >> (lg_k + 3)); may exceed 56 for (unreachable) nearly full matrices.
+pub fn window_offset_of(lg_k: u8, num_coupons: u32) -> u8 {
+    let k = 1i64 << lg_k;
+    let t = 8 * (num_coupons as i64) - 19 * k;
+    if t < 0 {
+        0
+    } else {
+        (t >> (lg_k + 3)) as u8
+    }
+}
+
+/// Index (0..22) of the Huffman table for the window bytes; for C >= 2.375 K it is the true
+/// phase (0..16), which also selects the column permutation of the Sliding flavor.
+pub fn pseudo_phase_of(lg_k: u8, num_coupons: u32) -> usize {
+    let k = 1u64 << lg_k;
+    let c = num_coupons as u64;
+    if 1000 * c < 2375 * k {
+        if 4 * c < 3 * k {
+            16
+        } else if 10 * c < 11 * k {
+            17
+        } else if 100 * c < 132 * k {
+            18
+        } else if 3 * c < 5 * k {
+            19
+        } else if 1000 * c < 1965 * k {
+            20
+        } else if 1000 * c < 2275 * k {
+            21
+        } else {
+            6
+        }
+    } else {
+        ((c >> (lg_k - 4)) & 15) as usize
+    }
+}
+
+/// Number of verbatim low bits of the Golomb code for the row deltas of `num_pairs` pairs.
+pub fn golomb_base_bits(lg_k: u8, num_pairs: u64) -> u32 {
+    debug_assert!(num_pairs > 0);
+    let q = (1u64 << lg_k) / num_pairs; // = ((k + n) - n) / n
+    if q == 0 {
+        0
+    } else {
+        63 - q.leading_zeros()
+    }
+}
+
+/// Preamble ints for a flag combination (C > 0 is implied by table or window being present).
+pub fn preamble_ints_for(has_hip: bool, has_table: bool, has_window: bool) -> u8 {
+    if !has_table && !has_window {
+        return 2;
+    }
+    let mut n = 3; // 2 + num_coupons
+    if has_hip {
+        n += 4;
+    }
+    if has_table {
+        n += 1;
+    }
+    if has_window {
+        n += 1;
+    }
+    if has_table && has_window {
+        n += 1; // num_pairs
+    }
+    n
+}
+
+// ------------------------------------------------------------------------------------------
+// Bit streams
+// ------------------------------------------------------------------------------------------
+
+struct BitReader<'a> {
+    bytes: &'a [u8],
+    pos: u64,   // in bits
+    nbits: u64, // 8 * bytes.len()
+}
+
+impl<'a> BitReader<'a> {
+    fn new(bytes: &'a [u8]) -> Self {
+        BitReader { bytes, pos: 0, nbits: 8 * bytes.len() as u64 }
+    }
+
+    /// The next `n <= 32` bits (first stream bit in bit 0); bits past the end read as zero.
+    fn peek(&self, n: u32) -> u32 {
+        debug_assert!(n <= 32);
+        let first = (self.pos >> 3) as usize;
+        let shift = (self.pos & 7) as u32;
+        let mut acc = 0u64;
+        for i in 0..5usize {
+            if let Some(&b) = self.bytes.get(first + i) {
+                acc |= (b as u64) << (8 * i);
+            }
+        }
+        let v = acc >> shift;
+        if n == 32 {
+            v as u32
+        } else {
+            (v & ((1u64 << n) - 1)) as u32
+        }
+    }
+
+    fn advance(&mut self, n: u32, what: &str) -> Result<(), String> {
+        if self.pos + n as u64 > self.nbits {
+            return Err(format!(
+                "stream: {what} runs past the end of the stream (bit {} + {n} > {})",
+                self.pos, self.nbits
+            ));
+        }
+        self.pos += n as u64;
+        Ok(())
+    }
+
+    /// One symbol of a 12-bit length-limited prefix code given by its 4096-entry decoding table
+    /// (entry = length << 8 | symbol).
+    fn symbol(&mut self, table: &[u16; 4096], what: &str) -> Result<u8, String> {
+        let e = table[self.peek(12) as usize];
+        self.advance((e >> 8) as u32, what)?;
+        Ok((e & 0xff) as u8)
+    }
+
+    /// Unary: number of zero bits before the terminating one bit; `limit` bounds the value.
+    fn unary(&mut self, limit: u64, what: &str) -> Result<u64, String> {
+        let mut total = 0u64;
+        loop {
+            if self.pos >= self.nbits {
+                return Err(format!("stream: {what} runs past the end of the stream"));
+            }
+            let chunk = self.peek(32);
+            if chunk == 0 {
+                let avail = (self.nbits - self.pos).min(32) as u32;
+                self.advance(avail, what)?;
+                total += avail as u64;
+            } else {
+                let z = chunk.trailing_zeros();
+                self.advance(z + 1, what)?;
+                total += z as u64;
+                if total > limit {
+                    return Err(format!("stream: {what} = {total} exceeds {limit}"));
+                }
+                return Ok(total);
+            }
+            if total > limit {
+                return Err(format!("stream: {what} exceeds {limit}"));
+            }
+        }
+    }
+
+    fn bits(&mut self, n: u32, what: &str) -> Result<u32, String> {
+        let v = self.peek(n);
+        self.advance(n, what)?;
+        Ok(v)
+    }
+
+    /// A conforming writer ends the stream with `padding` zero bits and rounds up to whole
+    /// 32-bit words, writing zeros: check exactly that.
+    fn finish(&self, padding: u32, what: &str) -> Result<(), String> {
+        let expect_words = (self.pos + padding as u64).div_ceil(32);
+        let have_words = self.nbits / 32;
+        if expect_words != have_words {
+            return Err(format!(
+                "stream: {what} uses {} data bits + {padding} padding bits = {expect_words} words, but {have_words} words are declared",
+                self.pos
+            ));
+        }
+        let mut p = self.pos;
+        while p < self.nbits {
+            let byte = self.bytes[(p >> 3) as usize];
+            let rest = byte >> (p & 7);
+            if rest != 0 {
+                return Err(format!("stream: {what} has non-zero padding bits after bit {}", self.pos));
+            }
+            p = (p | 7) + 1;
+        }
+        Ok(())
+    }
+}
+
+struct BitWriter {
+    bytes: Vec<u8>,
+    nbits: u64,
+}
+
+impl BitWriter {
+    fn new() -> Self {
+        BitWriter { bytes: Vec::new(), nbits: 0 }
+    }
+
+    /// Append the low `n <= 32` bits of `v`, least significant first.
+    fn put(&mut self, v: u32, n: u32) {
+        for i in 0..n {
+            let bit = ((v >> i) & 1) as u8;
+            let at = (self.nbits >> 3) as usize;
+            if at == self.bytes.len() {
+                self.bytes.push(0);
+            }
+            self.bytes[at] |= bit << (self.nbits & 7);
+            self.nbits += 1;
+        }
+    }
+
+    fn put_zeros(&mut self, n: u64) {
+        self.nbits += n;
+        let need = self.nbits.div_ceil(8) as usize;
+        if self.bytes.len() < need {
+            self.bytes.resize(need, 0);
+        }
+    }
+
+    fn put_unary(&mut self, v: u64) {
+        self.put_zeros(v);
+        self.put(1, 1);
+    }
+
+    /// Add the padding bits and round up to whole little-endian u32 words.
+    fn finish(mut self, padding: u32) -> Vec<u8> {
+        self.put_zeros(padding as u64);
+        let words = self.nbits.div_ceil(32) as usize;
+        self.bytes.resize(4 * words, 0);
+        self.bytes
+    }
+}
+
+// ------------------------------------------------------------------------------------------
+// Pair list <-> stream
+// ------------------------------------------------------------------------------------------
+
+/// Decodes `num_pairs` (row, canonical col) pairs; they come out strictly increasing.
+fn read_pairs(
+    stream: &[u8],
+    lg_k: u8,
+    num_pairs: u32,
+    max_col: u32,
+    strict_padding: bool,
+) -> Result<Vec<(u32, u8)>, String> {
+    let k = 1u64 << lg_k;
+    let b = golomb_base_bits(lg_k, num_pairs as u64);
+    let mut rd = BitReader::new(stream);
+    // every pair takes at least 1 (x) + 1 (unary terminator) + b bits
+    if (num_pairs as u64) * (2 + b as u64) > rd.nbits {
+        return Err(format!(
+            "length: {num_pairs} pairs cannot fit in a table stream of {} bits",
+            rd.nbits
+        ));
+    }
+    let mut pairs = Vec::with_capacity(num_pairs as usize);
+    let mut row = 0u64;
+    let mut next_col = 0u32;
+    for i in 0..num_pairs {
+        let x_delta = rd.symbol(&LENGTH_LIMITED_UNARY_DECODING_TABLE65, "pair column delta")? as u32;
+        let hi = rd.unary((k - 1 - row) >> b, "pair row delta (golomb high part)")?;
+        let lo = rd.bits(b, "pair row delta (golomb low part)")? as u64;
+        let y_delta = (hi << b) | lo;
+        if y_delta > 0 {
+            next_col = 0;
+        }
+        row += y_delta;
+        let col = next_col + x_delta;
+        if row >= k {
+            return Err(format!("stream: pair {i} has row {row} >= k = {k}"));
+        }
+        if col >= max_col {
+            return Err(format!("stream: pair {i} has column code {col} >= {max_col}"));
+        }
+        pairs.push((row as u32, col as u8));
+        next_col = col + 1;
+    }
+    if strict_padding {
+        rd.finish(10u32.saturating_sub(b), "table stream")?;
+    }
+    Ok(pairs)
+}
+
+/// `pairs` must be sorted by (row, canonical col) and free of duplicates.
+fn write_pairs(pairs: &[(u32, u8)], lg_k: u8) -> Vec<u8> {
+    let b = golomb_base_bits(lg_k, pairs.len() as u64);
+    let mut wr = BitWriter::new();
+    let mut row = 0u32;
+    let mut next_col = 0u32;
+    for &(r, c) in pairs {
+        if r != row {
+            next_col = 0;
+        }
+        let x_delta = c as u32 - next_col;
+        let y_delta = r - row;
+        let code = LENGTH_LIMITED_UNARY_ENCODING_TABLE65[x_delta as usize];
+        wr.put((code & 0xfff) as u32, (code >> 12) as u32);
+        wr.put_unary((y_delta >> b) as u64);
+        wr.put(y_delta & ((1u32 << b) - 1), b);
+        row = r;
+        next_col = c as u32 + 1;
+    }
+    wr.finish(10u32.saturating_sub(b))
+}
+
+fn read_window(stream: &[u8], lg_k: u8, num_coupons: u32, strict_padding: bool) -> Result<Vec<u8>, String> {
+    let k = 1usize << lg_k;
+    let mut rd = BitReader::new(stream);
+    if k as u64 > rd.nbits {
+        return Err(format!(
+            "length: {k} window bytes cannot fit in a window stream of {} bits",
+            rd.nbits
+        ));
+    }
+    let table = &DECODING_TABLES_FOR_HIGH_ENTROPY_BYTE[pseudo_phase_of(lg_k, num_coupons)];
+    let mut window = Vec::with_capacity(k);
+    for _ in 0..k {
+        window.push(rd.symbol(table, "window byte")?);
+    }
+    if strict_padding {
+        rd.finish(11, "window stream")?;
+    }
+    Ok(window)
+}
+
+fn write_window(window: &[u8], lg_k: u8, num_coupons: u32) -> Vec<u8> {
+    let table = &ENCODING_TABLES_FOR_HIGH_ENTROPY_BYTE[pseudo_phase_of(lg_k, num_coupons)];
+    let mut wr = BitWriter::new();
+    for &byte in window {
+        let code = table[byte as usize];
+        wr.put((code & 0xfff) as u32, (code >> 12) as u32);
+    }
+    wr.finish(11)
+}
+
+// ------------------------------------------------------------------------------------------
+// decode
+// ------------------------------------------------------------------------------------------
+
+fn rd_u32(img: &[u8], at: usize) -> u32 {
+    u32::from_le_bytes([img[at], img[at + 1], img[at + 2], img[at + 3]])
+}
+
+fn rd_f64(img: &[u8], at: usize) -> f64 {
+    let mut b = [0u8; 8];
+    b.copy_from_slice(&img[at..at + 8]);
+    f64::from_le_bytes(b)
+}
+
+/// Strict decoder; see the module documentation.  Never panics.  All declared lengths are
+/// validated against the image size before anything is allocated: allocations are bounded by
+/// `8 * 2^lg_k` bytes for the matrix (see `DecodeOptions::max_lg_k`) plus at most about 20 times
+/// the image size for the decoded pair list and window.
+pub fn decode(img: &[u8]) -> Result<(CpcImage, Fields), String> {
+    decode_with(img, &DecodeOptions::default())
+}
+
+/// Knobs for `decode_with`; `DecodeOptions::default()` is what `decode` uses.
+#[derive(Clone, Copy, Debug)]
+pub struct DecodeOptions {
+    /// Refuse (`limit:` error) to materialise matrices for `lg_k > max_lg_k`: a Sparse image of
+    /// a few bytes can legitimately declare lg_k = 26, i.e. a 512 MiB matrix.  All format checks
+    /// that do not need the matrix are still made first.  Default 26.
+    pub max_lg_k: u8,
+    /// Check that each stream ends exactly where a writer would end it: the declared word count
+    /// equals ceil((data bits + padding bits) / 32) and all bits after the data are zero.
+    /// The Java/C++/Rust readers never look at those bits, so with `false` this decoder accepts
+    /// what they accept there (it still fails if the data runs past the declared stream).
+    /// Default true.
+    pub strict_padding: bool,
+}
+
+impl Default for DecodeOptions {
+    fn default() -> Self {
+        DecodeOptions { max_lg_k: MAX_LG_K, strict_padding: true }
+    }
+}
+
+/// `decode` with `max_lg_k` lowered (see `DecodeOptions::max_lg_k`).
+pub fn decode_with_max_lg_k(img: &[u8], max_lg_k: u8) -> Result<(CpcImage, Fields), String> {
+    decode_with(img, &DecodeOptions { max_lg_k, ..DecodeOptions::default() })
+}
+
+/// `decode` with explicit options.
+pub fn decode_with(img: &[u8], opts: &DecodeOptions) -> Result<(CpcImage, Fields), String> {
+    let max_lg_k = opts.max_lg_k;
+    if img.len() < 8 {
+        return Err(format!("length: image has {} bytes, the fixed preamble needs 8", img.len()));
+    }
+    let mut fields: Fields = vec![
+        (0, 1, "preamble_ints"),
+        (1, 1, "serial_version"),
+        (2, 1, "family_id"),
+        (3, 1, "lg_k"),
+        (4, 1, "first_interesting_column"),
+        (5, 1, "flags"),
+        (6, 2, "seed_hash"),
+    ];
+    let preamble_ints = img[0];
+    let serial_version = img[1];
+    let family_id = img[2];
+    let lg_k = img[3];
+    let fic = img[4];
+    let flags = img[5];
+    let seed_hash = u16::from_le_bytes([img[6], img[7]]);
+
+    if serial_version != SERIAL_VERSION {
+        return Err(format!("preamble: serial version {serial_version}, expected {SERIAL_VERSION}"));
+    }
+    if family_id != FAMILY_ID {
+        return Err(format!("preamble: family id {family_id}, expected {FAMILY_ID} (CPC)"));
+    }
+    if !(MIN_LG_K..=MAX_LG_K).contains(&lg_k) {
+        return Err(format!("preamble: lg_k {lg_k} outside {MIN_LG_K}..={MAX_LG_K}"));
+    }
+    if fic > 63 {
+        return Err(format!("preamble: first interesting column {fic} > 63"));
+    }
+    if flags & FLAG_COMPRESSED == 0 {
+        return Err(format!("preamble: flags {flags:#04x}: COMPRESSED bit not set"));
+    }
+    if flags & FLAG_RESERVED_MASK != 0 {
+        return Err(format!("preamble: flags {flags:#04x}: reserved bits set"));
+    }
+    let has_hip = flags & FLAG_HAS_HIP != 0;
+    let has_table = flags & FLAG_HAS_TABLE != 0;
+    let has_window = flags & FLAG_HAS_WINDOW != 0;
+    let expect_pre = preamble_ints_for(has_hip, has_table, has_window);
+    if preamble_ints != expect_pre {
+        return Err(format!(
+            "preamble: preamble ints {preamble_ints}, but flags {flags:#04x} imply {expect_pre}"
+        ));
+    }
+    let pre_bytes = 4 * preamble_ints as usize;
+    if img.len() < pre_bytes {
+        return Err(format!(
+            "length: image has {} bytes, the preamble alone needs {pre_bytes}",
+            img.len()
+        ));
+    }
+    let k = 1u64 << lg_k;
+
+    // ---- empty sketch ----
+    if !has_table && !has_window {
+        if img.len() != 8 {
+            return Err(format!("length: empty image has {} bytes, expected 8", img.len()));
+        }
+        if fic != 0 {
+            return Err(format!("semantic: empty image with first interesting column {fic}"));
+        }
+        if lg_k > max_lg_k {
+            return Err(format!("limit: lg_k {lg_k} > configured maximum {max_lg_k}"));
+        }
+        let image = CpcImage {
+            lg_k,
+            seed_hash,
+            first_interesting_column: fic,
+            num_coupons: 0,
+            has_hip,
+            kxp: if has_hip { k as f64 } else { 0.0 },
+            hip_accum: 0.0,
+            flags,
+            preamble_ints,
+            window_offset: 0,
+            matrix: vec![0u64; k as usize],
+        };
+        return Ok((image, fields));
+    }
+
+    // ---- variable part of the preamble ----
+    let mut at = 8usize;
+    let mut take = |len: usize, name: &'static str, fields: &mut Fields| {
+        let o = at;
+        fields.push((o, len, name));
+        at += len;
+        o
+    };
+    let num_coupons = rd_u32(img, take(4, "num_coupons", &mut fields));
+    let mut num_pairs = num_coupons; // when there is no window every coupon is a pair
+    let mut kxp = 0.0;
+    let mut hip_accum = 0.0;
+    let mut table_words = 0u32;
+    let mut window_words = 0u32;
+    if has_table && has_window {
+        num_pairs = rd_u32(img, take(4, "num_pairs", &mut fields));
+        if has_hip {
+            kxp = rd_f64(img, take(8, "kxp", &mut fields));
+            hip_accum = rd_f64(img, take(8, "hip_accum", &mut fields));
+        }
+    }
+    if has_table {
+        table_words = rd_u32(img, take(4, "table_words", &mut fields));
+    }
+    if has_window {
+        window_words = rd_u32(img, take(4, "window_words", &mut fields));
+    }
+    if has_hip && !(has_table && has_window) {
+        kxp = rd_f64(img, take(8, "kxp", &mut fields));
+        hip_accum = rd_f64(img, take(8, "hip_accum", &mut fields));
+    }
+    debug_assert_eq!(at, pre_bytes);
+
+    // ---- total length (before anything is allocated) ----
+    let expect_len = pre_bytes as u64 + 4 * (table_words as u64 + window_words as u64);
+    if img.len() as u64 != expect_len {
+        return Err(format!(
+            "length: image has {} bytes, but preamble ({pre_bytes}) + window ({window_words} words) + table ({table_words} words) = {expect_len}",
+            img.len()
+        ));
+    }
+    let window_at = pre_bytes;
+    let table_at = pre_bytes + 4 * window_words as usize;
+    if has_window {
+        fields.push((window_at, 4 * window_words as usize, "window_stream"));
+    }
+    if has_table {
+        fields.push((table_at, 4 * table_words as usize, "table_stream"));
+    }
+    let window_stream = &img[window_at..table_at];
+    let table_stream = &img[table_at..];
+
+    // ---- flavor versus flags ----
+    if num_coupons == 0 {
+        return Err("flavor: num_coupons = 0 but a table or window is flagged".to_string());
+    }
+    if num_coupons as u64 > 64 * k {
+        return Err(format!("semantic: num_coupons {num_coupons} > 64 k = {}", 64 * k));
+    }
+    let flavor = flavor_of(lg_k, num_coupons);
+    let offset = window_offset_of(lg_k, num_coupons);
+    match flavor {
+        Flavor::Empty => unreachable!(),
+        Flavor::Sparse | Flavor::Hybrid => {
+            if has_window || !has_table {
+                return Err(format!(
+                    "flavor: {flavor:?} (lg_k {lg_k}, C {num_coupons}) needs table and no window, flags {flags:#04x}"
+                ));
+            }
+        }
+        Flavor::Pinned | Flavor::Sliding => {
+            if !has_window {
+                return Err(format!(
+                    "flavor: {flavor:?} (lg_k {lg_k}, C {num_coupons}) needs a window, flags {flags:#04x}"
+                ));
+            }
+            if has_table && num_pairs == 0 {
+                return Err("flavor: table flagged with num_pairs = 0".to_string());
+            }
+        }
+    }
+    if offset > 56 {
+        return Err(format!("limit: window offset {offset} > 56 (C {num_coupons}, lg_k {lg_k})"));
+    }
+    if has_table && num_pairs as u64 > 64 * k {
+        return Err(format!("semantic: num_pairs {num_pairs} > 64 k = {}", 64 * k));
+    }
+    if lg_k > max_lg_k {
+        return Err(format!("limit: lg_k {lg_k} > configured maximum {max_lg_k}"));
+    }
+
+    // ---- streams ----
+    let strict = opts.strict_padding;
+    let window =
+        if has_window { read_window(window_stream, lg_k, num_coupons, strict)? } else { Vec::new() };
+    let max_col = if has_window { 56 } else { 64 };
+    let pairs = if has_table {
+        read_pairs(table_stream, lg_k, num_pairs, max_col, strict)?
+    } else {
+        Vec::new()
+    };
+
+    // ---- the matrix ----
+    let default_row = (1u64 << offset) - 1; // early zone all ones (offset = 0 unless Sliding)
+    let mut matrix = vec![default_row; k as usize];
+    for (row, &byte) in window.iter().enumerate() {
+        matrix[row] |= (byte as u64) << offset;
+    }
+    match flavor {
+        Flavor::Empty => unreachable!(),
+        Flavor::Sparse | Flavor::Hybrid => {
+            for &(row, col) in &pairs {
+                matrix[row as usize] |= 1u64 << col;
+            }
+        }
+        Flavor::Pinned => {
+            for &(row, col) in &pairs {
+                matrix[row as usize] |= 1u64 << (col + 8);
+            }
+        }
+        Flavor::Sliding => {
+            let inverse = &COLUMN_PERMUTATIONS_FOR_DECODING[pseudo_phase_of(lg_k, num_coupons)];
+            for &(row, code) in &pairs {
+                let col = (inverse[code as usize] + offset + 8) & 63;
+                // late zone: 0 -> 1; early zone: 1 -> 0
+                matrix[row as usize] ^= 1u64 << col;
+            }
+        }
+    }
+
+    // ---- consistency of the header with the decoded matrix ----
+    let bits: u64 = matrix.iter().map(|r| r.count_ones() as u64).sum();
+    if bits != num_coupons as u64 {
+        return Err(format!(
+            "semantic: num_coupons {num_coupons} but the decoded matrix has {bits} bits set"
+        ));
+    }
+    let max_fic = canonical_fic(&matrix, offset);
+    if fic > max_fic {
+        return Err(format!(
+            "semantic: first interesting column {fic}, but at most {max_fic} is consistent with the matrix and offset {offset}"
+        ));
+    }
+
+    let image = CpcImage {
+        lg_k,
+        seed_hash,
+        first_interesting_column: fic,
+        num_coupons,
+        has_hip,
+        kxp,
+        hip_accum,
+        flags,
+        preamble_ints,
+        window_offset: offset,
+        matrix,
+    };
+    Ok((image, fields))
+}
+
+/// The first interesting column a writer computes when it rebuilds a sketch from its matrix
+/// (window move, union result): the lowest column holding a surprising value, capped by the
+/// window offset.  A live sketch may carry a smaller (stale) value, never a larger one.
+pub fn canonical_fic(matrix: &[u64], offset: u8) -> u8 {
+    let early = (1u64 << offset) - 1;
+    let window = 0xffu64 << offset;
+    let mut ored = 0u64;
+    for &row in matrix {
+        ored |= (row & !window) ^ early;
+    }
+    (ored.trailing_zeros() as u8).min(offset)
+}
+
+// ------------------------------------------------------------------------------------------
+// encode
+// ------------------------------------------------------------------------------------------
+
+/// Writes the image a Java/C++ writer would write for `im.matrix`.
+///
+/// Uses `lg_k`, `seed_hash`, `has_hip`/`kxp`/`hip_accum` and `matrix`; derives `num_coupons`,
+/// flavor, window offset, first interesting column, flags and preamble ints itself (the
+/// corresponding fields of `im` are ignored).  Panics only if `im` is not a well-formed input
+/// (see `try_encode`).
+pub fn encode(im: &CpcImage) -> Vec<u8> {
+    try_encode(im, None).expect("cpc spec encode")
+}
+
+/// As `encode`, with an explicit first-interesting-column byte (`None` = canonical value).
+/// Errors: lg_k out of range, matrix length != 2^lg_k, window offset > 56, or an explicit
+/// first interesting column that is inconsistent with the matrix.
+pub fn try_encode(im: &CpcImage, fic: Option<u8>) -> Result<Vec<u8>, String> {
+    let lg_k = im.lg_k;
+    if !(MIN_LG_K..=MAX_LG_K).contains(&lg_k) {
+        return Err(format!("lg_k {lg_k} outside {MIN_LG_K}..={MAX_LG_K}"));
+    }
+    let k = 1usize << lg_k;
+    if im.matrix.len() != k {
+        return Err(format!("matrix has {} rows, expected {k}", im.matrix.len()));
+    }
+    let bits: u64 = im.matrix.iter().map(|r| r.count_ones() as u64).sum();
+    let num_coupons = bits as u32; // <= 64 * 2^26 = 2^32 only if all bits set: excluded below
+    if bits > u32::MAX as u64 {
+        return Err("matrix has 2^32 bits set".to_string());
+    }
+    let flavor = flavor_of(lg_k, num_coupons);
+    let offset = window_offset_of(lg_k, num_coupons);
+    if offset > 56 {
+        return Err(format!("window offset {offset} > 56"));
+    }
+    let canonical = canonical_fic(&im.matrix, offset);
+    let fic = match fic {
+        None => canonical,
+        Some(f) if f <= canonical => f,
+        Some(f) => return Err(format!("first interesting column {f} > {canonical}")),
+    };
+    let fic = if flavor == Flavor::Empty { 0 } else { fic };
+
+    // window and pairs
+    let mut window: Vec<u8> = Vec::new();
+    let mut pairs: Vec<(u32, u8)> = Vec::new();
+    match flavor {
+        Flavor::Empty => {}
+        Flavor::Sparse | Flavor::Hybrid => {
+            for (row, &bits) in im.matrix.iter().enumerate() {
+                let mut m = bits;
+                while m != 0 {
+                    let col = m.trailing_zeros();
+                    m &= m - 1;
+                    pairs.push((row as u32, col as u8));
+                }
+            }
+        }
+        Flavor::Pinned | Flavor::Sliding => {
+            // the permutation is selected by the true phase; only the Sliding flavor uses it
+            let perm = if flavor == Flavor::Sliding {
+                Some(&COLUMN_PERMUTATIONS_FOR_ENCODING[pseudo_phase_of(lg_k, num_coupons)])
+            } else {
+                None
+            };
+            let early = (1u64 << offset) - 1;
+            let wmask = 0xffu64 << offset;
+            window.reserve(k);
+            for (row, &bits) in im.matrix.iter().enumerate() {
+                window.push(((bits >> offset) & 0xff) as u8);
+                let mut m = (bits & !wmask) ^ early; // surprising ones and surprising zeros
+                let start = pairs.len();
+                while m != 0 {
+                    let col = m.trailing_zeros() as u8;
+                    m &= m - 1;
+                    let code = match perm {
+                        None => col - 8, // Pinned: offset = 0, so col >= 8 here
+                        Some(perm) => perm[((col + 56 - offset) & 63) as usize],
+                    };
+                    pairs.push((row as u32, code));
+                }
+                pairs[start..].sort_unstable();
+            }
+        }
+    }
+
+    let has_hip = im.has_hip;
+    let has_table = !pairs.is_empty();
+    let has_window = !window.is_empty();
+    let window_stream = if has_window { write_window(&window, lg_k, num_coupons) } else { Vec::new() };
+    let table_stream = if has_table { write_pairs(&pairs, lg_k) } else { Vec::new() };
+
+    let flags = FLAG_COMPRESSED
+        | if has_hip { FLAG_HAS_HIP } else { 0 }
+        | if has_table { FLAG_HAS_TABLE } else { 0 }
+        | if has_window { FLAG_HAS_WINDOW } else { 0 };
+    let mut out = Vec::with_capacity(40 + window_stream.len() + table_stream.len());
+    out.push(preamble_ints_for(has_hip, has_table, has_window));
+    out.push(SERIAL_VERSION);
+    out.push(FAMILY_ID);
+    out.push(lg_k);
+    out.push(fic);
+    out.push(flags);
+    out.extend_from_slice(&im.seed_hash.to_le_bytes());
+    if flavor != Flavor::Empty {
+        let hip = |out: &mut Vec<u8>| {
+            out.extend_from_slice(&im.kxp.to_le_bytes());
+            out.extend_from_slice(&im.hip_accum.to_le_bytes());
+        };
+        out.extend_from_slice(&num_coupons.to_le_bytes());
+        if has_table && has_window {
+            out.extend_from_slice(&(pairs.len() as u32).to_le_bytes());
+            if has_hip {
+                hip(&mut out);
+            }
+        }
+        if has_table {
+            out.extend_from_slice(&((table_stream.len() / 4) as u32).to_le_bytes());
+        }
+        if has_window {
+            out.extend_from_slice(&((window_stream.len() / 4) as u32).to_le_bytes());
+        }
+        if has_hip && !(has_table && has_window) {
+            hip(&mut out);
+        }
+        out.extend_from_slice(&window_stream);
+        out.extend_from_slice(&table_stream);
+    }
+    Ok(out)
+}
+
+// ------------------------------------------------------------------------------------------
+// Start-up self checks of the copied tables (independent of the library)
+// ------------------------------------------------------------------------------------------
+
+/// Checks one encoding table (entry = length << 12 | code word, emitted LSB first) and its
+/// 4096-entry decoding table (entry = length << 8 | symbol, indexed by the next 12 stream bits).
+fn check_code(name: &str, enc: &[u16], dec: &[u16; 4096], checks: &mut u32) -> Result<(), String> {
+    // 1. lengths in 1..=12, code word fits in its length
+    for (sym, &e) in enc.iter().enumerate() {
+        let len = (e >> 12) as u32;
+        let code = (e & 0xfff) as u32;
+        if !(1..=12).contains(&len) {
+            return Err(format!("{name}: symbol {sym} has code length {len}"));
+        }
+        if code >> len != 0 {
+            return Err(format!("{name}: symbol {sym} code word {code:#x} wider than {len} bits"));
+        }
+    }
+    *checks += 1;
+    // 2. Kraft sum exactly 1 (in units of 2^-12)
+    let kraft: u32 = enc.iter().map(|&e| 1u32 << (12 - (e >> 12) as u32)).sum();
+    if kraft != 4096 {
+        return Err(format!("{name}: Kraft sum is {kraft}/4096"));
+    }
+    *checks += 1;
+    // 3. prefix-free and complete: the 12-bit extensions of the code words tile 0..4096
+    //    exactly once; this builds the inverse table from the definition
+    let mut inverse = [u16::MAX; 4096];
+    for (sym, &e) in enc.iter().enumerate() {
+        let len = (e >> 12) as u32;
+        let code = (e & 0xfff) as u32;
+        for garbage in 0..(1u32 << (12 - len)) {
+            let idx = (code | (garbage << len)) as usize;
+            if inverse[idx] != u16::MAX {
+                return Err(format!(
+                    "{name}: code words of symbols {} and {sym} are not prefix-free",
+                    inverse[idx] & 0xff
+                ));
+            }
+            inverse[idx] = ((len as u16) << 8) | sym as u16;
+        }
+    }
+    if inverse.contains(&u16::MAX) {
+        return Err(format!("{name}: code is not complete"));
+    }
+    *checks += 1;
+    // 4. the shipped decoding table is exactly that inverse
+    if let Some(i) = (0..4096).find(|&i| inverse[i] != dec[i]) {
+        return Err(format!(
+            "{name}: decoding table entry {i} is {:#x}, inverse of the encoding table is {:#x}",
+            dec[i], inverse[i]
+        ));
+    }
+    *checks += 1;
+    Ok(())
+}
+
+/// Consistency checks of the copied constant tables; returns the number of checks made.
 pub fn self_check() -> Result<u32, String> {
-    Ok(0)
+    let mut checks = 0u32;
+    check_code(
+        "length-limited unary code",
+        &LENGTH_LIMITED_UNARY_ENCODING_TABLE65,
+        &LENGTH_LIMITED_UNARY_DECODING_TABLE65,
+        &mut checks,
+    )?;
+    // the unary-like code must be monotone: a larger delta never has a shorter code
+    for w in LENGTH_LIMITED_UNARY_ENCODING_TABLE65.windows(2) {
+        if (w[1] >> 12) < (w[0] >> 12) {
+            return Err("length-limited unary code: lengths are not monotone".to_string());
+        }
+    }
+    checks += 1;
+    for t in 0..22 {
+        check_code(
+            &format!("byte code {t}"),
+            &ENCODING_TABLES_FOR_HIGH_ENTROPY_BYTE[t],
+            &DECODING_TABLES_FOR_HIGH_ENTROPY_BYTE[t],
+            &mut checks,
+        )?;
+    }
+    for p in 0..16 {
+        let fwd = &COLUMN_PERMUTATIONS_FOR_ENCODING[p];
+        let inv = &COLUMN_PERMUTATIONS_FOR_DECODING[p];
+        let mut seen = [false; 56];
+        for &v in fwd.iter() {
+            if v >= 56 || seen[v as usize] {
+                return Err(format!("column permutation {p} is not a permutation of 0..56"));
+            }
+            seen[v as usize] = true;
+        }
+        checks += 1;
+        for i in 0..56usize {
+            if inv[i] >= 56 || fwd[inv[i] as usize] as usize != i || inv[fwd[i] as usize] as usize != i {
+                return Err(format!("column permutation {p}: decoding table is not the inverse"));
+            }
+        }
+        checks += 1;
+    }
+    // a tiny end-to-end sanity check of the bit-stream primitives
+    let mut wr = BitWriter::new();
+    wr.put(0b101, 3);
+    wr.put_unary(37);
+    wr.put(0xabc, 12);
+    let bytes = wr.finish(11);
+    let mut rd = BitReader::new(&bytes);
+    let ok = rd.bits(3, "t").ok() == Some(0b101)
+        && rd.unary(100, "t").ok() == Some(37)
+        && rd.bits(12, "t").ok() == Some(0xabc)
+        && rd.finish(11, "t").is_ok();
+    if !ok {
+        return Err("bit stream primitives are broken".to_string());
+    }
+    checks += 1;
+    Ok(checks)
 }
